@@ -6,7 +6,9 @@
              CRC-64-AVRO for every input.
   CANON      the canonical-form writer never reads logical types, docs or the stored JSON; the three named kinds enter
              their full form only on the first-occurrence test and otherwise write the quoted fullname; names are
-             written with fully_qualified_name(); per-kind templates (constant strings in order) match the spec
+             written with fully_qualified_name(); per-kind templates (constant strings in order) match the spec;
+             dynamic parts are written untransformed (fixed size: one Display of fixed.size with a bare "{}", no
+             cast); the named-once table is indexed by key.idx itself; every "," write is live code
   SOURCE     Schema.fingerprint is assigned once, at freeze, from canonical_form_rabin_fingerprint() of the node
              graph; rabin_fingerprint() returns that field; the builder type has no cached state besides the nodes
              and the stored JSON
